@@ -25,7 +25,7 @@ func runOne(seed uint64, p Params) (*World, *Truth, []byte, *CaptureSpec) {
 	if w.Err != "" {
 		return w, nil, nil, nil
 	}
-	s := DrawCaptureSpec(t)
+	s := DrawCaptureSpec(t, p)
 	b := WriteCapture(w, s)
 	return w, ComputeTruth(w), b, s
 }
